@@ -807,7 +807,11 @@ class ODF2XHTML(handler.ContentHandler):
         if self.generate_css and self.use_internal_css:
             self.opentag('style', {'type':"text/css"}, True)
             self.writeout('/*<![CDATA[*/\n')
+            # a "]]>" in a style property must not end the CDATA section
+            wfunc = self._wfunc
+            self._wfunc = lambda s: wfunc(s.replace(']]>', ']]]]><![CDATA[>'))
             self.generate_stylesheet()
+            self._wfunc = wfunc
             self.writeout('/*]]>*/\n')
             self.closetag('style')
         self.purgedata()
